@@ -152,3 +152,34 @@ Theorem C02_implied_end_tags_spec :
     match q with [] => True | h :: _ => set (ename_of s h) = false end.
 Proof. exact implied_split_spec. Qed.
 Print Assumptions C02_implied_end_tags_spec.
+
+(* ------------------------------------------------------------------ fuel *)
+(* One iteration of the Reprocess loop never runs out of fuel (the fuel of the in-body / in-head / in-template knot and
+   of the meta extraction is proved sufficient); it answers, or stops at the ghost assertion 99, and keeps the loop
+   invariant.  So the OutOfFuel tolerated by C02_tree_no_panic_partial can only be the counter of ptc_loop. *)
+From HV Require Tree.TreeFuel.
+Theorem C02_iteration_never_out_of_fuel :
+  forall t0 s t more, TreeInvMain.LI t0 s t more ->
+    match ptc_iter t more s with
+    | Ok r s' => TreeInvMain.iter_post t0 r s'
+    | Panic n => n = 99%N
+    | OutOfFuel => False
+    end.
+Proof. exact TreeFuel.ptc_iter_never_out_of_fuel. Qed.
+Print Assumptions C02_iteration_never_out_of_fuel.
+
+(* C02_process_token_never_out_of_fuel is NOT proved.  What is proved is the reduction: the loop never runs out of
+   fuel as soon as SOME measure on its configurations drops at every iteration that continues it and the fuel exceeds
+   the measure of the first configuration.  The header of coq/Tree/TreeFuel.v records the measure that was worked out
+   for the 25 Reprocess sites (token-class dependent rank + number of open table elements + template modes), why no
+   simpler one exists, and what in the chain has to change to prove it. *)
+Theorem C02_never_out_of_fuel_given_measure_partial :
+  forall t0 Meas, TreeFuel.decreasing t0 Meas ->
+    forall fuel s t more, TreeInvMain.LI t0 s t more -> Meas s t more < fuel ->
+      match ptc_loop fuel t more s with
+      | Ok res s' => TreeInvMain.res_post t0 res s'
+      | Panic n => n = 99%N
+      | OutOfFuel => False
+      end.
+Proof. exact TreeFuel.loop_never_out_of_fuel_given_measure. Qed.
+Print Assumptions C02_never_out_of_fuel_given_measure_partial.
